@@ -1,5 +1,6 @@
 import TrackpyV.Model.Proto
 import TrackpyV.Model.Linker
+import TrackpyV.Model.LinkerAlgo
 
 /-! Driver op for the linker monitor (C01, C02 step level, C03, C04, C11).
 
@@ -26,8 +27,9 @@ def parseCfg? (s : String) : Option Cfg := do
   let vel ← if velS = "-" then some none else (intList? velS).map some
   let drop := (m.lookup "drop") == some "1"
   let noOpt := (m.lookup "opt") == some "0"
+  let ncap := (m.lookup "ncap") == some "1"
   some { w := w, B := B, memory := mem, maxNeighbors := maxn, maxSize := maxsize, vel := vel,
-         drop := drop, noOpt := noOpt }
+         drop := drop, noOpt := noOpt, numbaCap := ncap }
 
 def parseLevel? (s : String) : Option Level := do
   match splitKeep s "|" with
@@ -52,6 +54,52 @@ def handleRun (rest : String) : String :=
       s!"verdict={r.verdict} step={r.step} contested={r.contested} relinks={r.relinks} births={r.births} capped={r.cappedSteps} ties={ties} reason={why}"
     | _, _ => "bad-op"
 
-def handlers : List (String × (String → String)) := [("LRUN", handleRun)]
+/-- `LSELF <cfg> ; <levels (labels ignored)>`: label every level with the deterministic algorithm
+`algoLabels` and judge it with `stepCheck`; returns `selfok=<#accepted steps> of=<#steps> first=<reason>` -/
+def handleSelf (rest : String) : String :=
+  match splitKeep rest ";" with
+  | [] => "bad-op"
+  | c :: ls =>
+    match parseCfg? c, parseAll parseLevel? ls with
+    | some cfg, some (l0 :: levels) =>
+      let lab0 := List.range l0.dsts.length
+      let st0 := nextState initCfg { srcs := [], used := [] } l0.t l0.dsts lab0
+      let (_, ok, n, why) := levels.foldl (fun (acc : State × Nat × Nat × String) l =>
+        let (st, ok, n, why) := acc
+        match algoLabels cfg st l.t l.dsts with
+        | none => (st, ok, n + 1, if why == "" then "algo-none" else why)
+        | some labels =>
+          match stepCheck cfg st l.t l.dsts (some labels) with
+          | .ok st' _ _ _ _ => (st', ok + 1, n + 1, why)
+          | .bad w => (nextState cfg st l.t l.dsts labels, ok, n + 1, if why == "" then w.replace " " "_" else why)
+          | .capped => (nextState cfg st l.t l.dsts labels, ok, n + 1, if why == "" then "capped" else why)
+          | .expectOversize => (nextState cfg st l.t l.dsts labels, ok, n + 1, if why == "" then "oversize" else why))
+        (st0, 0, 0, "")
+      s!"selfok={ok} of={n} first={why}"
+    | _, _ => "bad-op"
+
+/-- `LALGO <cfg> ; <levels (labels ignored)>`: the labels of the deterministic algorithm for the
+whole movie, `ok 0,1|0,2,3|...` (`none` if a step is oversize) -/
+def handleAlgo (rest : String) : String :=
+  match splitKeep rest ";" with
+  | [] => "bad-op"
+  | c :: ls =>
+    match parseCfg? c, parseAll parseLevel? ls with
+    | some cfg, some (l0 :: levels) =>
+      let lab0 := List.range l0.dsts.length
+      let st0 := nextState initCfg { srcs := [], used := [] } l0.t l0.dsts lab0
+      let (_, out, bad) := levels.foldl (fun (acc : State × List (List Nat) × Bool) l =>
+        let (st, out, bad) := acc
+        if bad then acc else
+        if oversizeB cfg (stepGroups cfg st l.t l.dsts) then (st, out, true) else
+        match algoLabels cfg st l.t l.dsts with
+        | none => (st, out, true)
+        | some labels => (nextState cfg st l.t l.dsts labels, out ++ [labels], false))
+        (st0, [lab0], false)
+      if bad then "none" else "ok " ++ joinWith "|" (out.map showNatList)
+    | _, _ => "bad-op"
+
+def handlers : List (String × (String → String)) :=
+  [("LRUN", handleRun), ("LSELF", handleSelf), ("LALGO", handleAlgo)]
 
 end TrackpyV.Driver.Linker
